@@ -25,25 +25,37 @@ var rewrittenFields = map[string]bool{"TTL": true, "HopLimit": true, "Checksum":
 func checkQuoteIdentifier(c *Ctx) {
 	R := c.R
 	n := 0
-	for _, g := range icmpInfoBuilders(c) {
-		rps, _ := core.ReturnPaths(c.P, g, 2000)
-		for _, rp := range rps {
-			r0 := rp.Results[0]
-			if r0.Op != "struct" {
-				continue
-			}
-			for _, kv := range r0.Args {
-				if kv.Name != "WrappedPacketID" || len(kv.Args) != 1 {
-					continue
-				}
-				n++
-				v := kv.Args[0].StripConv()
-				ok := v.Op == "zero" || v.IsConst("0") || v.Op == "field" && (v.Name == "Id" || v.Name == "Length") && quoteLocal(v.Args[0])
-				R.Check(ok, "R01.11", core.FuncName(g)+"#quote-identifier", rp.Ret.Pos(), core.FuncName(g), "WrappedPacketID is a field of the quoted header (or 0)", "the per-probe identifier taken from the quote is "+kv.Args[0].String()+", not the quoted header's Id / Length field: it then depends on how many bytes the router quoted, so a short quote is credited to another probe of the run")
-			}
+	f := c.P.Func("(*packets.FrameParser).GetICMPInfo")
+	if f == nil {
+		R.Fail("R01.11", "packets.GetICMPInfo#anchor", 0, "", "anchor (*packets.FrameParser).GetICMPInfo no longer resolves")
+		return
+	}
+	fn := core.FuncName(f)
+	// the parser's paths with its per-family halves and small helpers opened
+	for _, ip := range InlinedPaths(c.P, f, inlineOpts{pkg: core.FuncPkg(f), stop: hasLoop, maxDepth: 4}) {
+		if len(ip.Results) < 2 || !ip.Results[len(ip.Results)-1].IsConst("nil") {
+			continue
+		}
+		id := core.ProjField(ip.Results[0], "WrappedPacketID")
+		if id == nil || id.Op == "field" && id.Name == "WrappedPacketID" {
+			continue // the literal is not visible on this path (built by something that was not opened)
+		}
+		n++
+		v := id.StripConv()
+		pos := f.Pos()
+		if ip.Ret != nil {
+			pos = ip.Ret.Pos()
+		}
+		switch {
+		case v.Op == "zero" || v.IsConst("0") || v.Op == "field" && (v.Name == "Id" || v.Name == "Length"):
+			R.OK("R01.11", fn+"#quote-identifier", pos, fn, "WrappedPacketID is a field of the quoted header (or 0)")
+		case v.Has(func(x *core.Term) bool { return x.Op == "len" }):
+			R.FailPath("R01.11", fn+"#quote-identifier", pos, fn, "the per-probe identifier taken from the quote is "+id.String()+", a length of what was decoded, not the quoted header's Id / Length field: it then depends on how many bytes the router quoted, so a short quote is credited to another probe of the run", ip.Desc)
+		default:
+			R.Info("R01.11", fn+"#quote-identifier", pos, fn, "WrappedPacketID = "+id.String()+": origin not decided")
 		}
 	}
-	R.Floor("R01.11:quote-identifiers", n, 2)
+	R.Floor("R01.11:quote-identifiers", n, 1)
 }
 
 // checkFixedFrameOffsets is R02.9: on the inbound parse path of package packets no byte slice is read at a constant offset of 20
